@@ -422,3 +422,65 @@ def persister_snapshot_independent(doc):
     loop = asyncio.new_event_loop()
     asyncio.set_event_loop(loop)
     return loop.run_until_complete(main())
+
+
+# ---------------------------------------------------------------------------------------------------- C01
+def _run(coro):
+    import asyncio
+    loop = asyncio.new_event_loop()
+    asyncio.set_event_loop(loop)
+    try:
+        return loop.run_until_complete(asyncio.wait_for(coro, 30))
+    finally:
+        loop.close()
+
+
+def fail_after_termination(doc):
+    """history: run a plain process to FINISHED (or kill it), then call fail(exc, None): terminal states must be final"""
+    from rprocs import Plain
+
+    async def main():
+        bad = []
+        p = Plain()
+        await p.step_until_terminated()
+        before = p.state
+        try:
+            p.fail(RuntimeError('late'), None)
+        except Exception:  # noqa
+            pass
+        if p.state != before:
+            bad.append(f'fail() on a {before.name} process moved it to {p.state.name}')
+        q = Plain()
+        q.kill('stop')
+        before = q.state
+        try:
+            q.fail(RuntimeError('late'), None)
+        except Exception:  # noqa
+            pass
+        if q.state != before:
+            bad.append(f'fail() on a {before.name} process moved it to {q.state.name}')
+        return '; '.join(bad)
+
+    return _run(main())
+
+
+def late_callback_failure(doc):
+    """history: a callback scheduled with call_soon raises after the process has FINISHED"""
+    import asyncio
+    from rprocs import Plain
+
+    async def main():
+        p = Plain()
+        await p.step_until_terminated()
+        before = p.state
+
+        def bad_cb():
+            raise RuntimeError('late callback')
+
+        p.call_soon(bad_cb)
+        await asyncio.sleep(0.05)
+        if p.state != before:
+            return f'a failing call_soon callback moved the {before.name} process to {p.state.name}'
+        return None
+
+    return _run(main())
